@@ -1242,6 +1242,9 @@ func clusterDriver(args []string) error {
 				runs = 5
 			}
 		}
+		if *scen == "writers" {
+			runs = 1
+		}
 		for run := 0; run < runs; run++ {
 			dir, _ := ioutil.TempDir(tmp, "cl")
 			c := &cl{tw: tw, enc: enc, rng: rng, dir: dir, snaps: map[uint64]*balloon.Snapshot{}, univ: u}
@@ -1299,7 +1302,7 @@ func clusterDriver(args []string) error {
 			case "writers":
 				rounds := 1
 				if thorough {
-					rounds = 5
+					rounds = 3
 				}
 				serr = c.scenarioWriters(rounds)
 			case "window":
